@@ -78,6 +78,8 @@ func unreach(i, j int) Event       { return Event{Kind: EvUnreachable, Node: uin
 func reportSnap(i, j, f int) Event { return Event{Kind: EvReportSnap, Node: uint8(i), Peer: uint8(j), Arg: uint16(f)} }
 func forget(i int) Event           { return Event{Kind: EvForgetLeader, Node: uint8(i)} }
 func pauseApply(i, on int) Event   { return Event{Kind: EvPauseApply, Node: uint8(i), Arg: uint16(on)} }
+func appendStep(i int) Event       { return Event{Kind: EvAppend, Node: uint8(i)} }
+func pauseReady(i, on int) Event   { return Event{Kind: EvPauseReady, Node: uint8(i), Arg: uint16(on)} }
 func holdFrom(i int) Event         { return Event{Kind: EvHoldFrom, Node: uint8(i)} }
 func flush() Event                 { return Event{Kind: EvFlush} }
 func pauseAppend(i, on int) Event  { return Event{Kind: EvPauseAppend, Node: uint8(i), Arg: uint16(on)} }
@@ -176,6 +178,15 @@ func scriptFailover() []Event {
 	return seq(camp(1), prop(1), isolate(1), prop(1), prop(1), camp(2), prop(2), heal(), prop(2), camp(1), prop(1))
 }
 
+// scriptStaleBatch: node 1's append thread stalls; entry a commits through the others,
+// b and c stay uncommitted in node 1's unstable tail (handed out, not written); a new
+// leader overwrites b; the append thread then writes the stale batches one by one and
+// the node crashes before the overwrite itself reaches the disk.
+func scriptStaleBatch() []Event {
+	return seq(camp(1), pauseAppend(1, 1), prop(1), isolate(1), prop(1), prop(1), camp(2), prop(2), heal(),
+		appendStep(1), appendStep(1), appendStep(1), appendStep(1), appendStep(1), crash(1, 0), prop(2), pauseAppend(1, 0), prop(2))
+}
+
 // scriptFigure8: the overwrite-a-majority-replicated-old-term-entry skeleton.
 func scriptFigure8() []Event {
 	return seq(camp(1), cut(1, 3), prop(1), isolate(1), camp(3), prop(3), heal(), isolate(3), camp(1), prop(1), heal(), camp(3), prop(3))
@@ -214,6 +225,14 @@ func scriptSnapshotTwice() []Event {
 // goes out while the snapshot itself may still be in flight.
 func scriptSnapshotDivergent() []Event {
 	return seq(camp(3), isolate(3), prop(3), prop(3), prop(3), prop(3), prop(3), camp(1), prop(1), prop(1), prop(1), compact(1, 0), heal(), tick(1), reportSnap(1, 3, 0), tick(1), prop(1), tick(1))
+}
+
+// scriptSnapshotPlusEntries: the follower's application is slow to call Ready while a
+// snapshot and the append that continues it are stepped, so one Ready carries a
+// snapshot together with entries.
+func scriptSnapshotPlusEntries() []Event {
+	return seq(camp(1), prop(1), isolate(3), prop(1), prop(1), compact(1, 0), prop(1), heal(), tick(1),
+		holdFrom(3), tick(1), tick(1), reportSnap(1, 3, 0), pauseReady(3, 1), flush(), pauseReady(3, 0), prop(1), tick(1), prop(1))
 }
 
 // scriptSnapshotTermChange: a follower's append thread is slow while it installs a
@@ -556,7 +575,25 @@ func poolSafety(tier string) (p pool) {
 		)
 		p.bfs = append(p.bfs, split(bfsReplicate(f, 2)))
 	}
+	// real aliasing between the unstable log and batches already handed out (replay-based, no clones)
+	for steps := 3; steps <= 6; steps++ {
+		sb := ddScn(fmt.Sprintf("stale-batch%d", steps), 3, ids(3), asyncF, scriptStaleBatchN(steps), k, int(BDrop), 1, int(BDup), 1, int(BCrash), 1)
+		sb.NoClone = true
+		c := asyncF.cfg()
+		c.MaxSizePerMsg = 1 // one entry per append
+		c.ElectionTick, c.HeartbeatTick, c.Timeout = 10, 1, 10
+		sb.Cfg = []NodeCfg{c}
+		p.dd = append(p.dd, sb)
+	}
 	return
+}
+
+func scriptStaleBatchN(steps int) []Event {
+	s := seq(camp(1), pauseAppend(1, 1), prop(1), isolate(1), prop(1), prop(1), camp(2), heal(), tick(2))
+	for i := 0; i < steps; i++ {
+		s = append(s, appendStep(1))
+	}
+	return append(s, crash(1, 0), prop(2), tick(2), pauseAppend(1, 0), prop(2))
 }
 
 func poolElection(tier string) (p pool) {
@@ -638,6 +675,11 @@ func poolSnapshot(tier string) (p pool) {
 			}(),
 		)
 		p.bfs = append(p.bfs, bfsSnapshot(f, int(BTick), 1), bfsPagination(f, 60))
+		{
+			se := tickSnap(ddScn("snapshot+entries", 3, ids(3), f, scriptSnapshotPlusEntries(), k, int(BDrop), 1, int(BDup), 1, int(BCrash), 1))
+			se.SlowSnap = true
+			p.dd = append(p.dd, se)
+		}
 		for _, ff := range []feat{{async: f.async, prevote: true}, f} {
 			cs := tickSnap(ddScn("candidate-snapshot", 3, ids(3), ff, scriptCandidateSnapshot(), k, int(BDrop), 1, int(BDup), 1, int(BCampaign), 1))
 			cs.SlowSnap = true
